@@ -100,8 +100,24 @@ fn defs() -> &'static [CheckDef] {
     })
 }
 
+struct StdoutLog;
+impl log::Log for StdoutLog {
+    fn enabled(&self, _m: &log::Metadata) -> bool {
+        true
+    }
+    fn log(&self, r: &log::Record) {
+        println!("      [smoltcp {}] {}", r.level(), r.args());
+    }
+    fn flush(&self) {}
+}
+static LOGGER: StdoutLog = StdoutLog;
+
 fn main() {
     let args: Vec<String> = std::env::args().collect();
+    if std::env::var("SIM_LOG").is_ok() {
+        let _ = log::set_logger(&LOGGER);
+        log::set_max_level(log::LevelFilter::Trace);
+    }
     let seed: u64 = std::env::var("VERIF_SEED").ok().and_then(|s| s.parse().ok()).unwrap_or(DEFAULT_SEED);
     let threads: usize = std::env::var("VERIF_THREADS").ok().and_then(|s| s.parse().ok()).unwrap_or(16).clamp(1, 60);
     let code = match args.get(1).map(|s| s.as_str()) {
